@@ -14,8 +14,9 @@ import vlib
 LEVEL = "model_checking"
 
 
-def consts(n, maxt, md, calls, due=True, atomic=True):
-    return {"NTasks": n, "MaxT": maxt, "MD": md, "MaxCalls": calls, "DueCheck": due, "AtomicHandlers": atomic}
+def consts(n, maxt, md, calls, due=True, atomic=True, fault="none"):
+    return {"NTasks": n, "MaxT": maxt, "MD": md, "MaxCalls": calls, "DueCheck": due, "AtomicHandlers": atomic,
+            "Fault": '"%s"' % fault}
 
 
 def cex_steps(r):
@@ -36,7 +37,7 @@ CEX = {}
 
 
 def model_check(ctx, quick):
-    inv = ["NoSelfOverlap", "NoEarlyStart", "NothingLost"]
+    inv = ["NoSelfOverlap", "NoEarlyStart", "NothingLost", "NoStartAfterCancel", "NoEarlyOvertime"]
     runs = [consts(2, 3, 10, 3)] if quick else [consts(2, 3, 10, 4), consts(2, 3, 2, 3), consts(3, 2, 10, 3)]
     for c in runs:
         ctx.tlc("TasksImpl", cfg_text=vlib.cfg_text(constants=c, invariants=inv, view="View"), timeout=3000)
@@ -54,6 +55,13 @@ def model_check(ctx, quick):
                                                     view="View"), timeout=1500, want_ok=False, count=False)
     info["stale_handler_decision_windows"] = r.violated or "holds"
     CEX["cex-stale"] = (cex_steps(r), 10)
+    # plausible regressions modelled as fault variants: their counterexamples are adversarial scripts that the
+    # unchanged code passes and a tree with that regression fails
+    for fault, invariant in (("cancelctx", "NoStartAfterCancel"), ("overtimenodue", "NoEarlyOvertime")):
+        r = ctx.tlc("TasksImpl", cfg_text=vlib.cfg_text(constants=consts(2, 3, 10, 4, fault=fault), invariants=[invariant],
+                                                        view="View"), timeout=1500, want_ok=False, count=False)
+        info["fault_variant_" + fault] = r.violated or "holds"
+        CEX["cex-" + fault] = (cex_steps(r), 10)
     return info
 
 
@@ -89,8 +97,9 @@ def gen_scripts(ctx, quick):
     for fam, (steps, md) in CEX.items():
         if steps:
             tail = [{"a": "free", "t": 0, "k": "-", "at": 0}] + [{"a": "tick", "t": 0, "k": "-", "at": 0}] * 3
-            scripts.append({"n": 2, "md": md, "unit": 100, "ordered": False, "auto": False, "holdMs": 25,
-                            "steps": steps + tail, "family": fam})
+            for rep in range(3):   # the replay depends on real timers: three attempts per counterexample
+                scripts.append({"n": 2, "md": md, "unit": 100, "ordered": False, "auto": False, "holdMs": 25,
+                                "steps": steps + tail, "family": fam, "rep": rep})
     # directed: a task queued again while it runs, the run outlasting its max delay (recorded finding F-C07-2)
     scripts.append({"n": 2, "md": 2, "unit": 100, "ordered": False, "auto": False, "holdMs": 25, "family": "requeue-overtime", "freeHandlers": True,
                     "steps": [{"a": "api", "t": 1, "k": "queue", "at": 0}, {"a": "await", "t": 1, "k": "-", "at": 0},
